@@ -605,3 +605,23 @@ Proof.
   destruct (pool s) eqn:Ep; [reflexivity|]. exfalso.
   destruct (pool_none s I Ep) as (Hn & _). rewrite Hn in Hx. discriminate.
 Qed.
+
+(* with lost PUT responses too: at most one more dangling index per failed deletion or lost PUT *)
+Lemma junk_bound_step s e s' :
+  step false s e = Some s' ->
+  (length (junk s') <= length (junk s) + (if del_failed e || put_lost e then 1 else 0))%nat.
+Proof.
+  intros H. destruct e; simpl in H; step_inv H; simpl; auto; try lia; try discriminate.
+  all: repeat match goal with |- context [match ?o with Some _ => _ | None => _ end] => destruct o; simpl end; lia.
+Qed.
+
+Lemma junk_bound tr : forall s s',
+  run false s tr = Some s' ->
+  (length (junk s') <= length (junk s) + length (filter (fun e => del_failed e || put_lost e) tr))%nat.
+Proof.
+  induction tr as [|e tr IH]; intros s s' H; simpl in *.
+  - injection H as <-. lia.
+  - destruct (step false s e) as [s1|] eqn:E; [|discriminate].
+    pose proof (IH s1 s' H). pose proof (junk_bound_step _ _ _ E).
+    destruct (del_failed e || put_lost e); simpl; lia.
+Qed.
